@@ -88,6 +88,20 @@ CONFIGS = {
 }
 
 
+# configurations used only as the source / target of a 'reconfig': an old endpoint exactly at midnight (the
+# scheduler entry that also serves as the daily wake-up for dates and weekdays), a new configuration without times
+CONFIGS_RECONF = {
+    'from-midnight': ('td', dict(times='0:00-0:00:02'), [0, us(0, 0, 2)], lambda d, x: in_range(x, 0, us(0, 0, 2))),
+    'until-midnight': ('td', dict(times='23:59:58-0:00'), [us(23, 59, 58), 0], lambda d, x: x >= us(23, 59, 58)),
+    'whole-day-sat': ('td', dict(times='0:0-0:0', weekdays='6'), [0], lambda d, x: d.isoweekday() == 6),
+    'sat-only': ('td', dict(weekdays='6'), [0], lambda d, x: d.isoweekday() == 6),
+}
+
+
+def config(name):
+    return CONFIGS[name] if name in CONFIGS else CONFIGS_RECONF[name]
+
+
 def span_pred(lo, hi):
     def pred(base, off_us):          # off_us: microseconds since base midnight
         a = (lo.date() - base).days * US_DAY + _t_us(lo.time())
@@ -214,8 +228,8 @@ def scen_timedate(env, cfg, base, utc, second_cfg=None, nobs=1, bidx=None, laten
 
 def scen_reconfig(env, cfg, newcfg, base, bidx=None, span_s=2, gmax=3):
     """a 'reconfig' event at a symbolic instant, arbitrarily close to a boundary of the old or new configuration"""
-    kind, kw, bounds, pred = CONFIGS[cfg]
-    k2, kw2, bounds2, pred2 = CONFIGS[newcfg]
+    kind, kw, bounds, pred = config(cfg)
+    k2, kw2, bounds2, pred2 = config(newcfg)
     w0, b0 = window(env, 'w0', sorted(set(bounds + bounds2)), span_us=span_s * S, bidx=bidx)
     with Run(env, BASES[base], w0, False) as run:
         td = edzed.TimeDate('td', **kw)
@@ -366,6 +380,13 @@ def shards(tier):
             out.append({'name': f'reconfig {a}->{b} boundary={bidx}', 'scenario': 'scen_reconfig',
                         'params': {'cfg': a, 'newcfg': b, 'base': 'mid', 'bidx': bidx,
                                    'span_s': 1 if tier == 'quick' else 2, 'gmax': 2 if tier == 'quick' else 3}, 'cost': 40})
+    # the old configuration has an endpoint exactly at midnight, the new one depends on the date only; bidx 0 = midnight
+    for a, b, base in (('whole-day-sat', 'sat-only', 'sat'), ('from-midnight', 'feb29', 'feb28'), ('until-midnight', 'sat-only', 'sat')):
+        if tier == 'quick' and a != 'whole-day-sat':
+            continue
+        out.append({'name': f'reconfig {a}->{b} base={base} around midnight', 'scenario': 'scen_reconfig',
+                    'params': {'cfg': a, 'newcfg': b, 'base': base, 'bidx': 0,
+                               'span_s': 1 if tier == 'quick' else 2, 'gmax': 2 if tier == 'quick' else 3}, 'cost': 40})
     for bidx in range(1 if tier == 'quick' else 2):
         out.append({'name': f'two blocks plain+two-ranges boundary={bidx}', 'scenario': 'scen_timedate',
                     'params': {'cfg': 'plain', 'base': 'mid', 'utc': False, 'second_cfg': 'two-ranges', 'nobs': 1, 'bidx': bidx},
